@@ -4,6 +4,14 @@ import json, sys
 
 ENGINE = "gsx"
 CHECKS = {
+ "C31": dict(
+   text="The real AttributeService.Read/Write and NodeNameSpace.Attribute/SetAttribute/Node.Access are executed on a node whose two access level attributes are absent, any byte value (symbolic) or wrongly typed; returned values and accepted writes are compared with the access predicate.",
+   note="Bounds: one node, one read and one write of the Value attribute. Trusted: go/ssa, gsx, z3.",
+   ref="DESIGN.md §5 C31"),
+ "C33": dict(
+   text="NodeNameSpace.Browse with suitableRef/suitableDirection/suitableRefType/getSubRefs is executed over a reference type hierarchy and a node with symbolic references; the result is compared with a reference implementation of the Part 4 matching predicate for every direction, type, subtype flag and class mask.",
+   note="Bounds: 7 reference types, <= 1 (quick) / 2 (thorough) references. Found and fixed: subtypes always included, panic on HasSubtype in the closure. Trusted: go/ssa, gsx, z3, the reference predicate.",
+   ref="DESIGN.md §5 C33"),
  "C01": dict(
    text="Values of the hand-written codec types, Variants of the built-in types and array shapes, and two service messages are built from symbolic leaves, encoded and decoded by the real code (reflection codec included) and compared with reflect.DeepEqual; every comparison is an SMT query over all leaf values.",
    note="Covers the special types and the shared reflection codec, not an enumeration of all ~400 generated types (stated outside). Found and fixed: arrays of ByteStrings were encoded without their elements. Trusted: go/ssa, gsx (reflect intrinsics), z3.",
